@@ -115,4 +115,8 @@ theorem C07_wiring :
     Sso.Generated.skel_auth_redirectURLSignature =
       ["call:?", "call:New", "call:?", "call:Write", "call:Unix", "call:Sprint", "call:?", "call:Write", "call:Sum", "return"] := by decide
 
+/-- Tie (T1): `SetRedirectURL` only records the authenticator's own callback URL; it does not touch the root-domain list. -/
+theorem C07_skeleton_SetRedirectURL : Sso.Generated.skel_auth_SetRedirectURL =
+    ["func{", "call:Join", "store:a.redirectURL", "return", "}", "return"] := by decide
+
 end Sso.AuthN
